@@ -159,3 +159,48 @@ pub proof fn lemma_lp_nested_concat(a: Seq<Seq<u8>>, b: Seq<Seq<u8>>)
         assert((lp_nested(a) + lp_nested(b.drop_last())) + lp(b.last()) =~= lp_nested(a) + (lp_nested(b.drop_last()) + lp(b.last())));
     }
 }
+
+// the store equal to `base` outside prefix p and to `w` (re-prefixed) under p: what a write through a prefixed view leaves
+pub open spec fn splice(base: St, p: Seq<u8>, w: St) -> St {
+    IMap::new(
+        |k: Seq<u8>| if starts_with(k, p) { w.contains_key(k.subrange(p.len() as int, k.len() as int)) } else { base.contains_key(k) },
+        |k: Seq<u8>| if starts_with(k, p) { w[k.subrange(p.len() as int, k.len() as int)] } else { base[k] })
+}
+pub proof fn lemma_splice_window(base: St, p: Seq<u8>, w: St)
+    ensures window(splice(base, p, w), p) == w
+{
+    assert forall|k: Seq<u8>| true implies #[trigger] starts_with(p + k, p) && (p + k).subrange(p.len() as int, (p + k).len() as int) == k by { lemma_concat_starts_with(p, k); }
+    assert(window(splice(base, p, w), p) =~= w);
+}
+pub proof fn lemma_splice_same(base: St, p: Seq<u8>)
+    ensures splice(base, p, window(base, p)) == base
+{
+    assert forall|k: Seq<u8>| starts_with(k, p) implies p + k.subrange(p.len() as int, k.len() as int) == k by { lemma_starts_with_split(k, p); }
+    assert(splice(base, p, window(base, p)) =~= base);
+}
+pub proof fn lemma_splice_insert(base: St, p: Seq<u8>, k: Seq<u8>, v: Seq<u8>)
+    ensures splice(base, p, window(base, p).insert(k, v)) == base.insert(p + k, v)
+{
+    lemma_concat_starts_with(p, k);
+    assert forall|x: Seq<u8>| starts_with(x, p) implies p + x.subrange(p.len() as int, x.len() as int) == x by { lemma_starts_with_split(x, p); }
+    assert forall|x: Seq<u8>| starts_with(x, p) implies (x.subrange(p.len() as int, x.len() as int) == k <==> x == p + k) by {
+        lemma_starts_with_split(x, p);
+    }
+    assert(splice(base, p, window(base, p).insert(k, v)) =~= base.insert(p + k, v));
+}
+pub proof fn lemma_splice_remove(base: St, p: Seq<u8>, k: Seq<u8>)
+    ensures splice(base, p, window(base, p).remove(k)) == base.remove(p + k)
+{
+    lemma_concat_starts_with(p, k);
+    assert forall|x: Seq<u8>| starts_with(x, p) implies p + x.subrange(p.len() as int, x.len() as int) == x by { lemma_starts_with_split(x, p); }
+    assert forall|x: Seq<u8>| starts_with(x, p) implies (x.subrange(p.len() as int, x.len() as int) == k <==> x == p + k) by {
+        lemma_starts_with_split(x, p);
+    }
+    assert(splice(base, p, window(base, p).remove(k)) =~= base.remove(p + k));
+}
+// [C08] whatever is written under prefix p leaves every key outside p untouched
+pub proof fn lemma_splice_frame(base: St, p: Seq<u8>, w: St, k: Seq<u8>)
+    requires !starts_with(k, p)
+    ensures splice(base, p, w).contains_key(k) == base.contains_key(k), base.contains_key(k) ==> splice(base, p, w)[k] == base[k]
+{
+}
